@@ -286,7 +286,8 @@ impl<const B: Word> Repr<B> {
         // first perform rounding before actual printing if necessary
         let negative = self.significand.sign() == Sign::Negative;
         let rounded_signif;
-        let (signif, exp) = if let Some(prec) = f.precision() {
+        // the exponent shown is computed in i128: `exponent + digits - 1` can exceed isize::MAX
+        let (signif, exp): (&IBig, i128) = if let Some(prec) = f.precision() {
             // add one because always have one extra digit before the radix point
             let prec = if use_hexadecimal {
                 (prec * 4 + 4) as isize
@@ -302,16 +303,16 @@ impl<const B: Word> Repr<B> {
                 if digit_len::<B>(&rounded) as isize > prec {
                     // the rounding carried into a new digit (9.99 -> 10.0): drop the last (zero) digit
                     rounded_signif = rounded / B;
-                    (&rounded_signif, self.exponent - diff + 1)
+                    (&rounded_signif, self.exponent as i128 - diff as i128 + 1)
                 } else {
                     rounded_signif = rounded;
-                    (&rounded_signif, self.exponent - diff)
+                    (&rounded_signif, self.exponent as i128 - diff as i128)
                 }
             } else {
-                (&self.significand, self.exponent)
+                (&self.significand, self.exponent as i128)
             }
         } else {
-            (&self.significand, self.exponent)
+            (&self.significand, self.exponent as i128)
         };
 
         // then print the digits to a buffer, without the prefix or sign
@@ -329,9 +330,9 @@ impl<const B: Word> Repr<B> {
         };
         // adjust exp because the radix point is put after the first digit
         let exp_adjust = if use_hexadecimal {
-            exp + (signif_str.len() as isize - 1) * 4
+            exp + (signif_str.len() as i128 - 1) * 4
         } else {
-            exp + signif_str.len() as isize - 1
+            exp + signif_str.len() as i128 - 1
         };
         write!(&mut exp_str, "{}", exp_adjust)?;
         let exp_str = exp_str.as_str();
